@@ -584,6 +584,13 @@ is_default_constructible(CPPVisibility min_vis) const {
       continue;
     }
 
+    if (instance->_type->is_const() &&
+        instance->_type->remove_const()->as_struct_type() == nullptr) {
+      // A const member of non-class type without an initializer cannot be
+      // default-initialized, so the implicit default constructor is deleted.
+      return false;
+    }
+
     if (!instance->_type->is_default_constructible()) {
       return false;
     }
